@@ -14,6 +14,7 @@ from __future__ import annotations
 
 import json
 import random
+import time
 from concurrent.futures import ThreadPoolExecutor
 from typing import Any
 
@@ -69,29 +70,27 @@ def validate(cases: list[dict[str, Any]], rep: Report | None = None, label: str 
     return out
 
 
-def model_check(rep: Report) -> list[dict[str, Any]]:
-    """Design layer against the contract + negative controls (in parallel); returns TLC's exported cases."""
+def model_check_start(ex: ThreadPoolExecutor) -> tuple[Any, dict[str, Any]]:
+    """Design layer against the contract + negative controls, started in the background (TLC is a
+    subprocess: it runs while Python drives the real code)."""
     def main() -> Any:
-        return tlc.run_tlc("MC_UdsMatch", "MC_UdsMatch.cfg", workers=1, coverage=True, timeout=1200)
+        # (-coverage makes this run ~5x slower; action coverage is measured from the exported `path`)
+        return tlc.run_tlc("MC_UdsMatch", "MC_UdsMatch.cfg", workers=1, timeout=1200)
 
     def dev(name: str) -> Any:
-        return tlc.run_tlc("MC_UdsMatch", f"MC_UdsMatch_{name}.cfg", workers=2, timeout=1200)
+        return tlc.run_tlc("MC_UdsMatch", f"MC_UdsMatch_{name}.cfg", workers=1, timeout=1200)
 
-    with ThreadPoolExecutor(max_workers=4) as ex:
-        fm = ex.submit(main)
-        fd = {n: ex.submit(dev, n) for n in DESIGN_INVARIANTS}
-        res = fm.result()
-        devres = {n: f.result() for n, f in fd.items()}
+    return ex.submit(main), {n: ex.submit(dev, n) for n in DESIGN_INVARIANTS}
+
+
+def model_check_finish(rep: Report, fm: Any, fd: dict[str, Any]) -> list[dict[str, Any]]:
+    """Collect the model-checking results; returns TLC's exported design cases (spec -> code)."""
+    res = fm.result()
+    devres = {n: f.result() for n, f in fd.items()}
     rep.add_tlc(res, "MC_UdsMatch (design |= contract, all Dev_* FALSE)")
     if not res.ok:
         rep.violate(f"design/{res.violated}", {"where": "UdsMatch design layer"},
                     {"cex": res.cex[-3:], "out": res.out[-1500:]})
-    never = [a for a, (n, _d) in res.coverage.items() if n == 0]
-    wanted = {"Init", "ParseRequest", "ParseResponse", "NegativeFallback", "PositiveFallback",
-              "RawRequestFallback", "Matches", "Report"}
-    if never or not wanted <= set(res.coverage):
-        raise Machinery(f"design layer vacuous: actions never taken {never}, seen {sorted(res.coverage)}")
-    rep.extra["design_action_coverage"] = {a: n for a, (n, _d) in res.coverage.items()}
     for n, r in devres.items():
         rep.add_tlc(r, f"MC_UdsMatch_{n} (negative control)")
         if r.violated not in DESIGN_INVARIANTS[n]:
@@ -100,16 +99,24 @@ def model_check(rep: Report) -> list[dict[str, Any]]:
     rep.extra["negative_controls"] = {n: r.violated for n, r in devres.items()}
     seen: set[str] = set()
     out = []
+    taken: dict[str, int] = {}
     for p in res.prints:
-        if isinstance(p, list) and len(p) == 9 and p[0] == "D":
+        if isinstance(p, list) and len(p) == 10 and p[0] == "D":
             k = json.dumps(p[1:5])
             if k in seen:
                 continue
             seen.add(k)
             out.append({"req": bytes(p[1]), "raw": bool(p[2]), "reply": bytes(p[3]), "label": "mc:" + p[4],
                         "design": p[5], "expected": p[6]})
-    if len(out) < 1000:
-        raise Machinery(f"TLC exported only {len(out)} design cases")
+            for a in p[9]:
+                taken[a] = taken.get(a, 0) + 1
+    if len(out) < 1000 or 5 * len(out) != res.distinct:
+        raise Machinery(f"TLC exported {len(out)} design cases for {res.distinct} states")
+    wanted = {"ParseRequest", "ParseResponse", "NegativeFallback", "PositiveFallback",
+              "RawRequestFallback", "Matches", "Report"}
+    if set(taken) != wanted:
+        raise Machinery(f"design layer vacuous: actions never taken {sorted(wanted - set(taken))}")
+    rep.extra["design_action_coverage"] = taken
     return out
 
 
@@ -136,7 +143,15 @@ def run(tier: str, seed: int) -> Report:
         "UDSClient.request() is run with max_retry=0 on a scripted transport under the virtual-time loop",
     ]
     # ---- 1. design |= contract, negative controls, export of the enumerated cases (spec -> code)
-    mc_cases = model_check(rep)
+    pool_ex = ThreadPoolExecutor(max_workers=4)
+    fm, fd = model_check_start(pool_ex)
+    t_phase = time.time()
+    phases: dict[str, float] = {}
+
+    def lap(name: str) -> None:
+        nonlocal t_phase
+        phases[name] = round(time.time() - t_phase, 1)
+        t_phase = time.time()
     # ---- 2. enumerate pairs for the real code
     reqs, failed, skipped = build_requests()
     rep.extra["request_instances"] = len(reqs)
@@ -192,9 +207,6 @@ def run(tier: str, seed: int) -> Report:
     rdbi = next(r for r in reqs if r.kind == "ReadDataByIdentifierRequest" and r.pdu == bytes.fromhex("221234"))
     for h in ("6212340100", "7f2231", "7f2221", "7f2278", "5003001901f4", "7f1031", "62123500", "6212", "62", "7f22"):
         add(rdbi.obj, rdbi, rdbi.pdu, False, bytes.fromhex(h), "c04-abstraction")
-    # spec -> code: every case of the design-layer model, replayed into the real code
-    for m in mc_cases:
-        add(service.RawRequest(m["req"]), None, m["req"], m["raw"], m["reply"], m["label"], design=m["design"])
     # seeded random replies (thorough): mutate bytes of pool replies
     if deep:
         for _ in range(6000):
@@ -205,14 +217,28 @@ def run(tier: str, seed: int) -> Report:
             if rnd.random() < 0.3:
                 g = g[:rnd.randint(1, len(g))]
             add(rc.obj, rc, rc.pdu, rc.raw, bytes(g), "random-mutation")
-    # ---- 3. drive the real code
-    for c, obj in zip(cases, objs):
-        c["p"], c["map"], c["pyclass"] = observe_parse(obj, c["reply"])
-    e2e = observe_e2e([(obj, c["reply"]) for c, obj in zip(cases, objs)])
-    for c, e in zip(cases, e2e):
-        c["e"] = e
+    lap("enumerate")
+    # ---- 3. drive the real code (first the harness-generated pairs, while TLC model-checks)
+    def observe(frm: int) -> None:
+        for c, obj in zip(cases[frm:], objs[frm:]):
+            c["p"], c["map"], c["pyclass"] = observe_parse(obj, c["reply"])
+        for c, e in zip(cases[frm:], observe_e2e([(obj, c["reply"]) for c, obj in zip(cases[frm:], objs[frm:])])):
+            c["e"] = e
+
+    observe(0)
+    lap("drive_real_code")
+    mc_cases = model_check_finish(rep, fm, fd)
+    pool_ex.shutdown()
+    lap("wait_for_model_checking")
+    n_own = len(cases)
+    # spec -> code: every case of the design-layer model, replayed into the real code
+    for m in mc_cases:
+        add(service.RawRequest(m["req"]), None, m["req"], m["raw"], m["reply"], m["label"], design=m["design"])
+    observe(n_own)
+    lap("replay_design_cases")
     # ---- 4. TLC decides
     verdicts = validate(cases, rep)
+    lap("tlc_trace_validation")
     rep.traces = len(cases)
     rep.evaluations = 2 * len(cases)
     by_class: dict[str, int] = {}
@@ -290,6 +316,8 @@ def run(tier: str, seed: int) -> Report:
     nrej = sum(1 for m in muts if v[m["id"]][0] != "ok")
     if nrej == 0:
         raise Machinery("binding self-test: the lenient-matcher mutant was accepted on all sampled pairs")
+    lap("binding_selftest")
+    rep.extra["phase_s"] = phases
     rep.extra["binding_selftest"] = {"corrupted_rejected": [v[i][0] for i in range(4)],
                                      "lenient_matcher_mutant_rejected": f"{nrej}/60"}
     return rep
